@@ -2,6 +2,7 @@ package main
 
 import (
 	"fmt"
+	"log"
 	"math/rand"
 	"os"
 	"runtime"
@@ -84,8 +85,22 @@ var kvModel = porcupine.Model{
 
 func vecHashF(v []float64, q int) uint64 { return hashBytes(syz.VerifEncodeVector(v, q)) }
 
+// the library logs inside its critical sections; a log writer that yields (and now and then sleeps) turns every
+// log line into a scheduling point, which widens the windows between an acquisition and whatever follows it
+type yieldWriter struct{ n int64 }
+
+func (w *yieldWriter) Write(p []byte) (int, error) {
+	if atomic.AddInt64(&w.n, 1)%3 == 0 {
+		time.Sleep(30 * time.Microsecond)
+	} else {
+		runtime.Gosched()
+	}
+	return len(p), nil
+}
+
 func runConc(args []string) {
 	path := args[0]
+	log.SetOutput(&yieldWriter{})
 	n := func(i int) int { v, _ := strconv.Atoi(args[i]); return v }
 	seed, threads, nops, seeded, quant, stats, procs, timeout, mix := int64(n(1)), n(2), n(3), n(4), n(5), n(6), n(7), n(8), n(9)
 	runtime.GOMAXPROCS(procs)
@@ -192,7 +207,9 @@ func runConc(args []string) {
 					case 2:
 						args.Radius = 0.8
 					default:
-						args.Limit = 4
+						// listing page: offsets inside and beyond the collection
+					args.Limit = 4
+					args.Offset = rng.Intn(12)
 					}
 					res := c.Search(args)
 					for k := 1; k < len(res.Results); k++ {
